@@ -65,20 +65,21 @@ def size_check_obligations(ctx, clause_prefix='D1'):
     # the raising comparison
     ifs = [n for n in own_nodes(chk.node) if isinstance(n, ast.If) and
            (always_raises(n.body) or always_raises(n.orelse))]
-    sized = []
-    for st in ifs:
-        names = derived(chk.node, st.test)
-        if any(x.endswith('st_size') or x.endswith('getsize') for x in names) or \
-                any('st_size' in norm(st.test) for _ in [0]):
-            sized.append(st)
-    if not sized:
-        # the comparison may use locals derived from st_size
-        for st in ifs:
-            for nm in names_in(st.test):
-                for val, _ in defs_of(chk.node, nm):
-                    if 'st_size' in norm(val) or 'getsize' in norm(val):
-                        sized.append(st)
-    sized = list({id(s): s for s in sized}.values())
+    def closure_exprs(test):
+        """test expression plus every defining RHS it (transitively) depends on."""
+        seen, out, work = set(), [test], [test]
+        while work:
+            e = work.pop()
+            for nm in names_in(e):
+                if nm in seen:
+                    continue
+                seen.add(nm)
+                for v, stt in defs_of(chk.node, nm):
+                    out.append(v)
+                    work.append(v)
+        return out
+    sized = [st for st in ifs if any(('st_size' in norm(e) or 'getsize' in norm(e))
+                                     for e in closure_exprs(st.test))]
     if not sized:
         ctx.bad('R-DOM', clause_prefix, chk, None, 'size-comparison',
                 'size check compares actual and expected file size and raises',
@@ -89,6 +90,17 @@ def size_check_obligations(ctx, clause_prefix='D1'):
     ctx.decide(strict, 'R-DOM', clause_prefix, chk, st, 'size-comparison-strict',
                f'size check `{norm(st.test)}` rejects every mismatch (too short and too long)',
                detail=why)
+    lossy = []
+    for e in closure_exprs(st.test):
+        for b in ast.walk(e):
+            if isinstance(b, ast.BinOp) and not isinstance(b.op, ast.Mult):
+                lossy.append(norm(b))
+            if isinstance(b, ast.Call) and dotted(b.func) in ('int', 'round', 'divmod', 'min', 'max', 'abs'):
+                lossy.append(norm(b))
+    ctx.decide(not lossy, 'R-FLOW', clause_prefix, chk, st, 'size-comparison-exact',
+               'the sizes compared are exact byte counts (only products on the way)',
+               detail=f'lossy arithmetic on the compared sizes: `{lossy[0] if lossy else ""}` — a file that is '
+                      f'off by less than one item (or by a multiple) is accepted')
     # expected size derives from product(shape) * itemsize of the descriptor dtype
     names = derived(chk.node, st.test)
     need = {'product/np.prod': any(n in ('product', 'np.prod', 'np.product', 'math.prod') for n in names),
